@@ -32,7 +32,7 @@ func TestVerif(t *testing.T) {
 		Level: "exploration",
 		Rule: "plain enumeration of calls PackManifest(v1.0 | v1.1 | invalid version 0,3,-1) and Pack(image | artifact) over: " +
 			"artifactType in SWEEP = {every string of length <= 3 over {a,/,+,space,%,newline}; thorough: length <= 4, plus length <= 3 over those six and {A,0,.,-,_,!}} and CURATED = {empty, valid names incl. every allowed punctuation and 127-character names, 128-character names, missing/extra slash, parameters, padding, control characters, leading punctuation, non-ASCII, 19 disallowed punctuation characters: 52 strings}; " +
-			"config option {none, none+ConfigAnnotations, none+empty ConfigAnnotations, descriptor valid, descriptor valid+ConfigAnnotations(ignored), descriptor of the empty-JSON type, descriptor with media type \"\" | containing a space | with a parameter | with a 128-character subtype}; " +
+			"config option {none, none+ConfigAnnotations, none+empty ConfigAnnotations, none+ConfigAnnotations being the very map passed as ManifestAnnotations, descriptor valid, descriptor valid+ConfigAnnotations(ignored), descriptor of the empty-JSON type, descriptor with media type \"\" | containing a space | with a parameter | with a 128-character subtype}; " +
 			"layers {nil, [], 1, 2}; subject {nil, set}; manifest annotations FULL = {nil, {}, other key, the other function family's created key, created+other key, created alone in 5 conforming, 3 application-defined and 40 malformed forms of 7 syntactic classes} and REPS (13 of FULL: one per class); " +
 			"light targets {recording memory store, Pusher-only wrapper without Exists}, each fresh and already holding the placeholder blobs: ((SWEEP x REPS) u (CURATED x FULL)) x everything else (for the deprecated Pack, which only echoes artifactType, SWEEP runs against 3 annotation forms); " +
 			"heavy targets {OCI layout on tmpfs, file store, remote repository over an in-process registry}, each fresh and already holding the blobs: 14 artifactType representatives x 8 of REPS (thorough: all 13) x everything else. " +
@@ -103,6 +103,8 @@ type cfgOpt struct {
 	name string
 	blob *blob             // user-supplied config (nil = none)
 	ann  map[string]string // ConfigAnnotations
+	// shared: ConfigAnnotations is the very map passed as ManifestAnnotations (one map for both options)
+	shared bool
 }
 
 func cfgOpts() []cfgOpt {
@@ -110,18 +112,19 @@ func cfgOpts() []cfgOpt {
 	d := func(mt string, data string, ann map[string]string) *blob { b := mk(mt, data, ann); return &b }
 	ca := map[string]string{"com.example.cfg": "v"}
 	return []cfgOpt{
-		{"none", nil, nil},
-		{"none+ConfigAnnotations", nil, ca},
-		{"none+empty ConfigAnnotations", nil, map[string]string{}},
-		{"descriptor(valid)", d("application/vnd.test.config.v1+json", userData, map[string]string{"com.example.c": "1"}), nil},
-		{"descriptor(valid)+ConfigAnnotations", d("application/vnd.test.config.v1+json", userData, nil), ca},
-		{"descriptor(empty-JSON type)", d(mtEmpty, "{}", nil), nil},
+		{name: "none"},
+		{name: "none+ConfigAnnotations", ann: ca},
+		{name: "none+empty ConfigAnnotations", ann: map[string]string{}},
+		{name: "none+ConfigAnnotations = the map passed as ManifestAnnotations", shared: true},
+		{name: "descriptor(valid)", blob: d("application/vnd.test.config.v1+json", userData, map[string]string{"com.example.c": "1"}), ann: nil},
+		{name: "descriptor(valid)+ConfigAnnotations", blob: d("application/vnd.test.config.v1+json", userData, nil), ann: ca},
+		{name: "descriptor(empty-JSON type)", blob: d(mtEmpty, "{}", nil), ann: nil},
 		// the bytes of the empty JSON object under a custom media type: shares its digest, not its identity, with the placeholder blob
-		{"descriptor(custom type, content {})", d("application/vnd.test.config.v1+json", "{}", nil), nil},
-		{"descriptor(media type \"\")", d("", userData, nil), nil},
-		{"descriptor(media type with space)", d("application/x y", userData, nil), nil},
-		{"descriptor(media type with parameter)", d("application/json; charset=utf-8", userData, nil), nil},
-		{"descriptor(128-character subtype)", d("application/"+strings.Repeat("s", 128), userData, nil), nil},
+		{name: "descriptor(custom type, content {})", blob: d("application/vnd.test.config.v1+json", "{}", nil), ann: nil},
+		{name: "descriptor(media type \"\")", blob: d("", userData, nil), ann: nil},
+		{name: "descriptor(media type with space)", blob: d("application/x y", userData, nil), ann: nil},
+		{name: "descriptor(media type with parameter)", blob: d("application/json; charset=utf-8", userData, nil), ann: nil},
+		{name: "descriptor(128-character subtype)", blob: d("application/"+strings.Repeat("s", 128), userData, nil), ann: nil},
 	}
 }
 
@@ -312,6 +315,15 @@ func copyDesc(d ocispec.Descriptor) ocispec.Descriptor {
 	return d
 }
 
+// cfgAnn is what was requested as the config's annotations: the ConfigAnnotations option, which in one
+// variant is the very map (hence the content) of the manifest annotations as the caller passed them.
+func (tc *tcase) cfgAnn() map[string]string {
+	if tc.c.shared {
+		return tc.m.m
+	}
+	return tc.c.ann
+}
+
 func (tc *tcase) layers() []ocispec.Descriptor {
 	switch tc.nl {
 	case -1:
@@ -358,6 +370,10 @@ func call(tc *tcase, p content.Pusher) (d ocispec.Descriptor, err error, pan str
 		x := copyDesc(tc.c.blob.desc)
 		cd = &x
 	}
+	mAnn, cAnn := copyMap(tc.m.m), copyMap(tc.c.ann)
+	if tc.c.shared {
+		cAnn = mAnn
+	}
 	switch tc.f {
 	case fPM10, fPM11, fPMbad:
 		v := oras.PackManifestVersion(tc.ver)
@@ -367,10 +383,10 @@ func call(tc *tcase, p content.Pusher) (d ocispec.Descriptor, err error, pan str
 			v = oras.PackManifestVersion1_1
 		}
 		d, err = oras.PackManifest(ctx, p, v, tc.at, oras.PackManifestOptions{
-			Subject: subj, Layers: tc.layers(), ManifestAnnotations: copyMap(tc.m.m), ConfigDescriptor: cd, ConfigAnnotations: copyMap(tc.c.ann)})
+			Subject: subj, Layers: tc.layers(), ManifestAnnotations: mAnn, ConfigDescriptor: cd, ConfigAnnotations: cAnn})
 	default:
 		d, err = oras.Pack(ctx, p, tc.at, tc.layers(), oras.PackOptions{
-			Subject: subj, ManifestAnnotations: copyMap(tc.m.m), PackImageManifest: tc.f == fPackImg, ConfigDescriptor: cd, ConfigAnnotations: copyMap(tc.c.ann)})
+			Subject: subj, ManifestAnnotations: mAnn, PackImageManifest: tc.f == fPackImg, ConfigDescriptor: cd, ConfigAnnotations: cAnn})
 	}
 	return
 }
@@ -442,7 +458,7 @@ func expect(tc *tcase) *exp {
 			} else if !rfc6838(mt) {
 				e.rejectPre = append(e.rejectPre, "artifactType violating RFC 6838")
 			}
-			w := placeholder(mt, tc.c.ann)
+			w := placeholder(mt, tc.cfgAnn())
 			e.config = &w
 			invent(w)
 		}
@@ -460,7 +476,7 @@ func expect(tc *tcase) *exp {
 			}
 			e.config = &want{tc.c.blob.desc, false}
 		} else {
-			w := placeholder(mtEmpty, tc.c.ann)
+			w := placeholder(mtEmpty, tc.cfgAnn())
 			e.config = &w
 			invent(w)
 		}
@@ -478,7 +494,7 @@ func expect(tc *tcase) *exp {
 			if mt == "" {
 				mt = mtUnknownConfig
 			}
-			w := placeholder(mt, tc.c.ann)
+			w := placeholder(mt, tc.cfgAnn())
 			e.config = &w
 			invent(w)
 		}
